@@ -32,6 +32,10 @@ if [ $# -eq 0 ]; then
   sed -i 's/\bprev\b/pred/g' include/pistache/mailbox.h
   sed -i 's/\breadOffset\b/roff/g' include/pistache/stream.h
   cd /verif; run_variant $D 00_rename_locals no || rc=1; rm -rf $D
+  # variant 00b: every local variable / parameter whose name is unambiguous in its file gets a new name (tool/rename_all_locals.py;
+  # ~450 names); names that turn out to collide with a type are listed in selftest/refactors/rename_excl.txt
+  D=$(mk); python3 tool/rename_all_locals.py $D selftest/refactors/rename_excl.txt | tail -1
+  run_variant $D 00b_rename_all_locals no || rc=1; rm -rf $D
   set -- selftest/refactors/*.patch
 fi
 for P in "$@"; do
